@@ -7,80 +7,90 @@ From Soy Require Import Model.Bytes Model.Outcome Model.Ast Model.Token Model.Ra
 From Coq Require Import Lia.
 Open Scope N_scope.
 
-Definition cstream (s : cst) : list tok := stream (c_p s).
-Definition cinv (s : cst) : Prop := inv (c_p s).
+(* every state the rules talk about is [set_ps s p sc]: the base state s (namespace, aliases,
+   inmsg flag) with the token plumbing p and the log of nested scanners sc *)
+Definition set_ps (s : cst) (p : pst) (sc : list scanrec) : cst :=
+  {| c_p := p; c_ns := c_ns s; c_al := c_al s; c_inmsg := c_inmsg s; c_scans := sc |}.
 
-(* r f lf returns a in the state s with its token plumbing replaced, for all large fuels *)
+Lemma set_ps_eta s : set_ps s (c_p s) (c_scans s) = s.
+Proof. destruct s; reflexivity. Qed.
+
+(* r f lf returns a in the state s with its token plumbing (and scanner log) replaced, for all large fuels *)
 Definition cok2 {A} (r : nat -> nat -> cres A) (s : cst) (a : A) (rest : list tok) : Prop :=
-  exists p', stream p' = rest /\ inv p' /\
-    exists f0, forall f lf, (f0 <= f)%nat -> (f0 <= lf)%nat -> r f lf = COk a (set_p s p').
+  exists p' sc', stream p' = rest /\ inv p' /\
+    exists f0, forall f lf, (f0 <= f)%nat -> (f0 <= lf)%nat -> r f lf = COk a (set_ps s p' sc').
 
-(* on every state (outside a {msg}) that delivers ts *)
-Definition CRun {A} (r : nat -> nat -> cst -> cres A) (ts : list tok) (a : A) (rest : list tok) : Prop :=
-  forall s, cstream s = ts -> cinv s -> c_inmsg s = false -> cok2 (fun f lf => r f lf s) s a rest.
+(* the part of the state a body never changes: inside a {msg} or not, namespace, aliases *)
+Definition base_ok (ns : bstr) (al : list (bstr * bstr)) (m : bool) (s : cst) : Prop :=
+  c_inmsg s = m /\ c_ns s = ns /\ c_al s = al.
 
-Lemma cstream_set_p s p : cstream (set_p s p) = stream p.
-Proof. reflexivity. Qed.
-Lemma cinv_set_p s p : cinv (set_p s p) = inv p.
-Proof. reflexivity. Qed.
+(* on every state with base (ns, al, m) that delivers ts *)
+Definition CRun {A} (ns : bstr) (al : list (bstr * bstr)) (m : bool) (r : nat -> nat -> cst -> cres A)
+           (ts : list tok) (a : A) (rest : list tok) : Prop :=
+  forall s p sc, stream p = ts -> inv p -> base_ok ns al m s -> cok2 (fun f lf => r f lf (set_ps s p sc)) s a rest.
 
-Lemma cnext_spec s t l : cstream s = t :: l -> cinv s ->
-  exists p1, c_next s = COk t (set_p s p1) /\ stream p1 = l /\ inv p1 /\
+Lemma base_ok_inmsg ns al m s b : base_ok ns al m s -> base_ok ns al b (set_inmsg s b).
+Proof. intros (_ & H1 & H2). repeat split; assumption. Qed.
+
+Lemma cnext_spec p t l : stream p = t :: l -> inv p ->
+  exists p1, (forall s sc, c_next (set_ps s p sc) = COk t (set_ps s p1 sc)) /\ stream p1 = l /\ inv p1 /\
              stream (p_backup p1) = t :: l /\ inv (p_backup p1).
 Proof.
   intros Hs Hi. destruct (next_spec _ _ _ Hs Hi) as (p1 & Hn & H1 & H2 & H3 & H4).
-  exists p1. unfold c_next. replace (3 <=? p_peek (c_p s))%nat with false.
-  - rewrite Hn. auto.
-  - symmetry. apply Nat.leb_gt. unfold cinv, inv in Hi. lia.
+  exists p1. split; [|auto]. intros s sc. unfold c_next. cbn [c_p set_ps]. replace (3 <=? p_peek p)%nat with false.
+  - rewrite Hn. reflexivity.
+  - symmetry. apply Nat.leb_gt. unfold inv in Hi. lia.
 Qed.
 
-Lemma cpeek_spec s t l : cstream s = t :: l -> cinv s ->
-  exists p1, c_peek s = COk t (set_p s p1) /\ stream p1 = t :: l /\ inv p1.
+Lemma cpeek_spec p t l : stream p = t :: l -> inv p ->
+  exists p1, (forall s sc, c_peek (set_ps s p sc) = COk t (set_ps s p1 sc)) /\ stream p1 = t :: l /\ inv p1.
 Proof.
   intros Hs Hi. destruct (peek_spec _ _ _ Hs Hi) as (p1 & Hn & H1 & H2).
-  exists p1. unfold c_peek. replace (3 <=? p_peek (c_p s))%nat with false.
-  - rewrite Hn. auto.
-  - symmetry. apply Nat.leb_gt. unfold cinv, inv in Hi. lia.
+  exists p1. split; [|auto]. intros s sc. unfold c_peek. cbn [c_p set_ps]. replace (3 <=? p_peek p)%nat with false.
+  - rewrite Hn. reflexivity.
+  - symmetry. apply Nat.leb_gt. unfold inv in Hi. lia.
 Qed.
 
 Section Base.
 Variable inlen : N.
 
-Lemma cexpect_spec typ ctx s t l : cstream s = t :: l -> cinv s -> t_typ t = typ ->
-  exists p1, c_expect inlen typ ctx s = COk t (set_p s p1) /\ stream p1 = l /\ inv p1.
+Lemma cexpect_spec typ ctx p t l : stream p = t :: l -> inv p -> t_typ t = typ ->
+  exists p1, (forall s sc, c_expect inlen typ ctx (set_ps s p sc) = COk t (set_ps s p1 sc)) /\ stream p1 = l /\ inv p1.
 Proof.
   intros Hs Hi Ht. destruct (cnext_spec _ _ _ Hs Hi) as (p1 & Hn & H1 & H2 & _).
-  exists p1. unfold c_expect. rewrite Hn. cbn [cbind]. unfold tis. rewrite Ht, N.eqb_refl. auto.
+  exists p1. split; [|auto]. intros s sc. unfold c_expect. rewrite Hn. cbn [cbind]. unfold tis. rewrite Ht, N.eqb_refl. reflexivity.
 Qed.
 
 (* the expression parser, lifted *)
-Lemma lift_expr_spec ts e rest s : Parses 0 ts e rest -> cstream s = ts -> cinv s ->
+Lemma lift_expr_spec ts e rest p : Parses 0 ts e rest -> stream p = ts -> inv p ->
   exists p1, stream p1 = rest /\ inv p1 /\
-    exists f0, forall f, (f0 <= f)%nat -> lift_expr inlen parse_expr f 0 s = COk e (set_p s p1).
+    exists f0, forall f s sc, (f0 <= f)%nat -> lift_expr inlen parse_expr f 0 (set_ps s p sc) = COk e (set_ps s p1 sc).
 Proof.
-  intros HP Hs Hi. destruct (HP (c_p s) Hs Hi) as (p1 & H1 & H2 & f0 & HF).
-  exists p1. split; [exact H1|]. split; [exact H2|]. exists f0. intros f Hf.
-  unfold lift_expr. rewrite (HF f f Hf Hf). reflexivity.
+  intros HP Hs Hi. destruct (HP p Hs Hi) as (p1 & H1 & H2 & f0 & HF).
+  exists p1. split; [exact H1|]. split; [exact H2|]. exists f0. intros f s sc Hf.
+  unfold lift_expr. cbn [c_p set_ps]. rewrite (HF f f Hf Hf). reflexivity.
 Qed.
 End Base.
 
-(* stepping tactics.  [cnext0]: the state is s itself; [cnextp]: the state is set_p s p.
-   Hs : stream of the state = t :: l, Hi : its invariant; introduces p1 (the plumbing after the
-   step), Hn (the equation), Hs1 Hi1 (stream / invariant after), Hsb Hib (after backing up) *)
+(* stepping tactics on a state [set_ps s p sc].  Hs : stream p = t :: l, Hi : inv p; introduce p1
+   (the plumbing after the step), Hn (the equation, for every base state and scanner log),
+   Hs1 Hi1 (stream / invariant after), Hsb Hib (after backing up).  The arguments s / p are
+   kept for readability only. *)
 Ltac cnext0 s Hs Hi p1 Hn Hs1 Hi1 Hsb Hib :=
-  destruct (cnext_spec s _ _ Hs Hi) as (p1 & Hn & Hs1 & Hi1 & Hsb & Hib).
+  destruct (cnext_spec _ _ _ Hs Hi) as (p1 & Hn & Hs1 & Hi1 & Hsb & Hib).
 Ltac cnextp s p Hs Hi p1 Hn Hs1 Hi1 Hsb Hib :=
-  destruct (cnext_spec (set_p s p) _ _ (Hs : cstream (set_p s p) = _) (Hi : cinv (set_p s p))) as (p1 & Hn & Hs1 & Hi1 & Hsb & Hib);
-  change (set_p (set_p s p) p1) with (set_p s p1) in Hn.
+  destruct (cnext_spec p _ _ Hs Hi) as (p1 & Hn & Hs1 & Hi1 & Hsb & Hib).
 Ltac cpeekp s p Hs Hi p1 Hn Hs1 Hi1 :=
-  destruct (cpeek_spec (set_p s p) _ _ (Hs : cstream (set_p s p) = _) (Hi : cinv (set_p s p))) as (p1 & Hn & Hs1 & Hi1);
-  change (set_p (set_p s p) p1) with (set_p s p1) in Hn.
+  destruct (cpeek_spec p _ _ Hs Hi) as (p1 & Hn & Hs1 & Hi1).
 Ltac cexpectp inlen ty ctx s p Hs Hi Ht p1 Hn Hs1 Hi1 :=
-  destruct (cexpect_spec inlen ty ctx (set_p s p) _ _ (Hs : cstream (set_p s p) = _) (Hi : cinv (set_p s p)) Ht) as (p1 & Hn & Hs1 & Hi1);
-  change (set_p (set_p s p) p1) with (set_p s p1) in Hn.
+  destruct (cexpect_spec inlen ty ctx p _ _ Hs Hi Ht) as (p1 & Hn & Hs1 & Hi1).
 Ltac cexprp inlen s p HP Hs Hi p1 Hs1 Hi1 f0 HF :=
-  destruct (lift_expr_spec inlen _ _ _ (set_p s p) HP (Hs : cstream (set_p s p) = _) (Hi : cinv (set_p s p))) as (p1 & Hs1 & Hi1 & f0 & HF);
-  change (set_p (set_p s p) p1) with (set_p s p1) in HF.
+  destruct (lift_expr_spec inlen _ _ _ p HP Hs Hi) as (p1 & Hs1 & Hi1 & f0 & HF).
+(* c_backup on a state in normal form *)
+Ltac cbk :=
+  repeat match goal with
+         | |- context [c_backup (set_ps ?s ?p ?sc)] => change (c_backup (set_ps s p sc)) with (set_ps s (p_backup p) sc)
+         end.
 
 Lemma tis_typ t c c' : t_typ t = c -> tis t c' = (c =? c').
 Proof. intros <-. reflexivity. Qed.
